@@ -205,6 +205,71 @@ def simple_cases():
     return {c.name: c for c in cs}
 
 
+def tp_histories():
+    """read / write histories on a TransformedParameter: [pre-reads] ; update ; [one accessor] ; call ; read tensor,
+    plus two-update histories (the accessor between the updates is what differs)"""
+    out = []
+    readers = [(), ('read:tensor',), ('read:shape',), ('read:requires_grad',), ('read:sample_shape',)]
+    for pre in ((), ('call',), ('call', 'read:tensor')):
+        for upd in ('set:p', 'set:tp', 'inplace:p'):
+            for rd in readers:
+                out.append(pre + (upd,) + rd + ('call', 'read:tensor'))
+    for upd1, upd2 in (('set:p', 'inplace:p'), ('inplace:p', 'set:p'), ('set:tp', 'set:p')):
+        for rd in readers[1:3]:
+            out.append(('call', upd1) + rd + ('call', upd2) + rd + ('call', 'read:tensor'))
+    return out
+
+
+def tp_history_check(make_tf, hist, xs, fresh_vals, elementwise):
+    """the same history on the real classes with plain tensors; oracle = torch.autograd at the current value"""
+    import torch.autograd.functional as AF
+    from torchtree.core.parameter import Parameter, TransformedParameter
+
+    def want_logdet(tf, x):
+        J = AF.jacobian(lambda z: tf(z), x)
+        if elementwise:
+            return torch.diagonal(J).abs().log()
+        return torch.linalg.slogdet(J.reshape(-1, x.numel())[: x.numel()])[1]
+
+    tf = make_tf()
+    p = Parameter('p', torch.tensor(xs, dtype=torch.float64))
+    tp = TransformedParameter('tp', p, make_tf())
+    k = 0
+    for step, op in enumerate(hist):
+        try:
+            if op == 'call':
+                got = tp()
+                want = want_logdet(tf, p.tensor.detach().clone())
+                if got.numel() != want.numel() or not torch.allclose(got.reshape(-1).to(torch.float64), want.reshape(-1), rtol=1e-7, atol=1e-9):
+                    return True, (f'history {list(hist)} step {step}: TransformedParameter() = {got.tolist()} but the autograd '
+                                  f'log-Jacobian at the current value x = {p.tensor.tolist()} is {want.tolist()}')
+            elif op == 'read:tensor':
+                got = tp.tensor
+                want = tf(p.tensor.detach().clone())
+                if got.shape != want.shape or not torch.allclose(got, want, rtol=1e-7, atol=1e-9):
+                    return True, (f'history {list(hist)} step {step}: TransformedParameter.tensor = {got.tolist()} but '
+                                  f'forward(current x) = {want.tolist()}')
+            elif op == 'read:shape':
+                _ = tp.shape
+            elif op == 'read:requires_grad':
+                _ = tp.requires_grad
+            elif op == 'read:sample_shape':
+                _ = tp.sample_shape
+            else:
+                fresh = torch.tensor(fresh_vals[k % len(fresh_vals)], dtype=torch.float64)
+                k += 1
+                if op == 'set:p':
+                    p.tensor = fresh
+                elif op == 'set:tp':
+                    tp.tensor = tf(fresh)
+                else:
+                    p.tensor[...] = fresh
+                    p.fire_parameter_changed()
+        except Exception as e:
+            return True, f'history {list(hist)} step {step} ({op}) raised {type(e).__name__}: {e}'
+    return False, 'agree'
+
+
 def run_case(case, t, V, W, tree_ctx=None):
     """Generic obligations for one transform on one witness.  Returns list[Goal]."""
     from torchtree.core.parameter import Parameter, TransformedParameter
@@ -277,49 +342,58 @@ def run_case(case, t, V, W, tree_ctx=None):
                 goal = d.and_(*[d.eq(a, b) for a, b in zip(bi, x._ids.tolist())])
                 goals.append(Goal(f'{case.name}: inv(forward(x)) == x', goal,
                                   hyps=ground_axioms(d, [goal], rounds=4), signature=f'{case.sig}:inverse'))
-        # TransformedParameter(): the log-Jacobian for the *current* value, also after an update
+        # TransformedParameter(): the log-Jacobian for the *current* value, over read / write HISTORIES: every getter
+        # (tensor, shape, requires_grad, sample_shape) consumes the dirty flag, so a value memoised by __call__ must be
+        # dropped whichever accessor runs first after an update
         if case.has_logdet and tree_ctx is None:
-            p = Parameter('p', cm.var_tensor(V, xn))
-            tp = TransformedParameter('tp', p, case.make(V))
-            first = tp()
-            _ = tp.tensor
-            x2 = cm.var_tensor(V, [f'z{j}' for j in range(case.dim)])
-            p.tensor = x2
-            second = tp()
-            y2 = tf(x2)
-            want = tf.log_abs_det_jacobian(x2, y2)
-            wi = (want._ids.reshape(-1).tolist() if isinstance(want, SymTensor)
-                  else [d.const(float(v)) for v in want.reshape(-1).tolist()])
-            si = (second._ids.reshape(-1).tolist() if isinstance(second, SymTensor)
-                  else [d.const(float(v)) for v in second.reshape(-1).tolist()])
-            fi = (first._ids.reshape(-1).tolist() if isinstance(first, SymTensor)
-                  else [d.const(float(v)) for v in first.reshape(-1).tolist()])
-            ok = len(wi) == len(si) == len(fi) == len(rep_ids)
-            goal = d.and_(*([d.eq(a, b) for a, b in zip(si, wi)] + [d.eq(a, b) for a, b in zip(fi, rep_ids)])) if ok else d.FALSE
-            goals.append(Goal(f'{case.name}: TransformedParameter() == log-Jacobian at the current value (before and after an update)',
-                              goal, signature=f'TransformedParameter.__call__:{case.sig}'))
-            # optimiser idiom on a separate parameter: in-place write into the held tensor + change notification
-            p3 = Parameter('p3', cm.var_tensor(V, xn))
-            tp3 = TransformedParameter('tp3', p3, case.make(V))
-            _ = tp3()
-            _ = tp3.tensor
-            p3.tensor[...] = cm.var_tensor(V, [f'u{j}' for j in range(case.dim)])
-            p3.fire_parameter_changed()
-            third = tp3()
-            xu = cm.var_tensor(V, [f'u{j}' for j in range(case.dim)])
-            y3 = tf(xu)
-            want3 = tf.log_abs_det_jacobian(xu, y3)
-            w3 = (want3._ids.reshape(-1).tolist() if isinstance(want3, SymTensor) else [d.const(float(v)) for v in want3.reshape(-1).tolist()])
-            t3 = (third._ids.reshape(-1).tolist() if isinstance(third, SymTensor) else [d.const(float(v)) for v in third.reshape(-1).tolist()])
-            g3 = d.and_(*[d.eq(a, b) for a, b in zip(t3, w3)]) if len(t3) == len(w3) else d.FALSE
-            tv3 = tp3.tensor._ids.reshape(-1).tolist()
-            g3 = d.and_(g3, *[d.eq(a, b) for a, b in zip(tv3, y3._ids.reshape(-1).tolist())])
-            goals.append(Goal(f'{case.name}: after an in-place update + fire_parameter_changed, TransformedParameter() and .tensor follow the new value',
-                              g3, signature=f'TransformedParameter:in-place-update:{case.sig}'))
-            tvals = tp.tensor._ids.reshape(-1).tolist()
-            goals.append(Goal(f'{case.name}: TransformedParameter.tensor == forward(current x)',
-                              d.and_(*[d.eq(a, b) for a, b in zip(tvals, y2._ids.reshape(-1).tolist())]),
-                              signature=f'TransformedParameter.tensor:{case.sig}'))
+            def ids_of(v):
+                return (v._ids.reshape(-1).tolist() if isinstance(v, SymTensor)
+                        else [d.const(float(q)) for q in v.reshape(-1).tolist()])
+
+            for hist in tp_histories():
+                if 'set:tp' in hist and not case.has_inverse:
+                    continue
+                p = Parameter('p', cm.var_tensor(V, xn))
+                tp = TransformedParameter('tp', p, case.make(V))
+                gs = []
+                nfresh = 0
+                for op in hist:
+                    if op == 'call':
+                        got = tp()
+                        cur_x = p.tensor
+                        y_cur = tf(cur_x)
+                        want = tf.log_abs_det_jacobian(cur_x, y_cur)
+                        gi, wi = ids_of(got), ids_of(want)
+                        gs.append(d.and_(*[d.eq(a, b) for a, b in zip(gi, wi)]) if len(gi) == len(wi) else d.FALSE)
+                    elif op == 'read:tensor':
+                        tv = ids_of(tp.tensor)
+                        yv = ids_of(tf(p.tensor))
+                        gs.append(d.and_(*[d.eq(a, b) for a, b in zip(tv, yv)]) if len(tv) == len(yv) else d.FALSE)
+                    elif op == 'read:shape':
+                        if tuple(tp.shape) != tuple(tf(p.tensor).shape):
+                            gs.append(d.FALSE)
+                    elif op == 'read:requires_grad':
+                        _ = tp.requires_grad
+                    elif op == 'read:sample_shape':
+                        _ = tp.sample_shape
+                    else:
+                        fresh = cm.var_tensor(V, [f'{"zu"[nfresh % 2]}{j}' for j in range(case.dim)])
+                        nfresh += 1
+                        if op == 'set:p':
+                            p.tensor = fresh
+                        elif op == 'set:tp':
+                            tp.tensor = tf(fresh)  # assignment in constrained space
+                        elif op == 'inplace:p':
+                            p.tensor[...] = fresh
+                            p.fire_parameter_changed()
+                        else:
+                            raise KeyError(op)
+                hname = ' ; '.join(hist)
+                goal = d.and_(*gs)
+                goals.append(Goal(f'{case.name}: TransformedParameter history [{hname}]: every tp() == log-Jacobian at the current '
+                                  f'value and every tp.tensor == forward(current x)', goal,
+                                  hyps=ground_axioms(d, [goal], rounds=3),
+                                  signature=f'TransformedParameter.history:{case.sig}'))
     finally:
         tt.jacobian = saved
     return goals
@@ -396,7 +470,17 @@ def simple_task(name, tr):
         if ok:
             return ok, det
         zs = [vals.get(f'z{j}', W[f'z{j}']) for j in range(case.dim)]
-        return numeric_check(lambda: case.make(None), zs, case.has_inverse, case.has_logdet, case.elementwise)
+        ok, det = numeric_check(lambda: case.make(None), zs, case.has_inverse, case.has_logdet, case.elementwise)
+        if ok or not case.has_logdet:
+            return ok, det
+        us = [vals.get(f'u{j}', W[f'u{j}']) for j in range(case.dim)]
+        for hist in tp_histories():
+            if 'set:tp' in hist and not case.has_inverse:
+                continue
+            ok, det = tp_history_check(lambda: case.make(None), hist, xs, [zs, us], case.elementwise)
+            if ok:
+                return ok, det
+        return False, det
 
     triage(out, rp, tr, name, {'transform': name})
 
